@@ -118,6 +118,9 @@ def translate(repo=None):
         })
     if not rows:
         raise TranslateError("no impl blocks found")
+    # canonical order (Stmt variants, then Expr variants, in enum order): the order of the impl blocks in the
+    # file carries no meaning
+    rows.sort(key=lambda r: (0 if r["typeEnum"] == "stmt" else 1, r["typeIdx"]))
     return enums, rows
 
 
@@ -137,7 +140,7 @@ def render(enums, rows):
     o.append("def exprVariants : List String := " + strs(v for v, _ in enums["Expr"]))
     o.append("def exprPayloads : List String := " + strs(p for _, p in enums["Expr"]))
     o.append("")
-    o.append("/-- implementing type names of the generated parsers, in file order (printing only) -/")
+    o.append("/-- implementing type names of the generated parsers, in enum order (printing only) -/")
     o.append("def typedNames : List String := " + strs(r["type"] for r in rows))
     o.append("")
     o.append("def typedParsers : List TypedParser := [")
